@@ -248,6 +248,15 @@ def run_case(case, tier):
                      "ARG": ("NH1", "NH2"), "TYR": ("OH",)}
             recs = [r for r in recs if r.raw is not None or (r.chain, r.resnum, r.icode) != kill or r.aname() not in names.get(r.resn, ())]
             classes.append("incomplete-residue")
+    if case["kind"] == "built" and variant is None and rng.random() < 0.25:
+        # a ligand of the fragment library (every hetero group type, a carbon-iodine bond, a five-ring, a sulfate)
+        from .. import fragments
+        fname = rng.choice(sorted(fragments.FRAGMENTS) + ["iodomethane"] * 4)
+        frag, _e, _d = fragments.place_near(recs, fname, rng, dist_A=rng.choice((3.5, 5.0, 8.0)), resnum=940, min_clear_A=3.0,
+                                            lattice=rng.random() < 0.5, shuffle=rng.random() < 0.5)
+        if frag:
+            recs = recs + frag
+            classes.append("library-ligand")
     if case["kind"] == "built" and rng.random() < 0.2:
         flat = flatten_group(recs, rng)
         if flat is not None:
